@@ -275,7 +275,7 @@ public:
                   VisitLog & visited, std::set<std::string> & byPath, std::set<std::string> & byNode, uint32 & numFiltersInMatcher)
    {
       NodePathMatcher m;
-      for (size_t i = 0; i < pats.size(); i++) if (m.PutPathFromString(pats[i].text.c_str(), filters[i], rooted ? NULL : "*/*").IsError()) rb::Abort("PutPathFromString failed for [" + pats[i].text + "]");
+      for (size_t i = 0; i < pats.size(); i++) if (m.PutPathFromString(pats[i].text.c_str(), filters[i], rooted ? NULL : "*/*").IsError() != pats[i].malformed) rb::Abort("PutPathFromString " + std::string(pats[i].malformed ? "accepted the malformed [" : "failed for [") + pats[i].text + "]");
       numFiltersInMatcher = m.GetNumFilters();
       const uint32 ret = m.DoTraversal((PathMatchCallback)CollectCb, this, start, useFilters, &visited);
       Brute(m, start, start, useFilters, byPath, byNode);
@@ -362,7 +362,13 @@ struct World {
    // ---- tree, read with public commands through the observer
    void ReadTree()
    {
-      B.ObserverView(ss[obs].c, 7);
+      // GETDATA /*, /*/*, ... one key per depth; in a third of the reads a key that does not compile sits somewhere in the list (the same
+      // PutPathsFromMessage() feeds GETDATA): the other keys must still fetch what they fetch alone
+      { Client * o = ss[obs].c; o->mirror.clear(); o->idx.clear(); MessageRef gd = GetMessageFromPool(PR_COMMAND_GETDATA); std::string p; const int bad = (R(3) == 0) ? (int)R(8) : -1;
+        for (int d = 1; d <= 7; d++) { if (d - 1 == bad) (void)gd()->AddString(PR_NAME_KEYS, (std::string(R(2) ? "/*/*/" : "") + PickMalformed()).c_str()); p += "/*"; (void)gd()->AddString(PR_NAME_KEYS, p.c_str()); }
+        if (bad == 7) (void)gd()->AddString(PR_NAME_KEYS, PickMalformed().c_str());
+        if (bad >= 0) vh::stat(bad < 7 ? "tree_reads_with_malformed_key_before_valid" : "tree_reads_with_malformed_key_last");
+        o->Send(gd); B.Settle(); }
       tree.nodes.clear();
       const std::map<std::string, std::string> & m = ss[obs].c->mirror;
       for (std::map<std::string, std::string>::const_iterator it = m.begin(); it != m.end(); ++it) {
@@ -397,7 +403,9 @@ struct World {
       Sess & s = ss[si]; if (s.kind != 0 || s.rel.empty()) return;
       std::set<std::string>::const_iterator it = s.rel.begin(); std::advance(it, R((uint32)s.rel.size())); const std::string victim = *it;
       std::vector<std::string> v = refwild::SplitPath(victim); std::string key; for (size_t i = 0; i < v.size(); i++) { if (i) key += "/"; key += EscLit(v[i]); }
-      MessageRef rm = GetMessageFromPool(PR_COMMAND_REMOVEDATA); (void)rm()->AddString(PR_NAME_KEYS, key.c_str()); s.c->Send(rm);
+      MessageRef rm = GetMessageFromPool(PR_COMMAND_REMOVEDATA); const int bad = R(4);   // 0: a key that does not compile goes first, 1: last
+      if (bad == 0) { (void)rm()->AddString(PR_NAME_KEYS, PickMalformed().c_str()); vh::stat("removedata_with_malformed_key_before_valid"); }
+      (void)rm()->AddString(PR_NAME_KEYS, key.c_str()); if (bad == 1) (void)rm()->AddString(PR_NAME_KEYS, PickMalformed().c_str()); s.c->Send(rm);
       std::set<std::string> keep; for (std::set<std::string>::const_iterator r = s.rel.begin(); r != s.rel.end(); ++r) if (*r != victim && r->compare(0, victim.size() + 1, victim + "/") != 0) keep.insert(*r);
       s.rel.swap(keep); log.push_back(vh::fmt("#%d REMOVEDATA %s", si, key.c_str())); vh::stat("removedata_commands");
    }
@@ -424,6 +432,15 @@ struct World {
       if (r < 60) return MakePat(cl, false);                                    // depth 2: session nodes
       std::vector<std::string> nc = NodeClauses(n, litBias); cl.insert(cl.end(), nc.begin(), nc.end());
       return MakePat(cl, false);
+   }
+   // a pattern that would be an ordinary one but for ONE clause (any level) that does not compile
+   Pat GenMalformedPat(bool litBias)
+   {
+      Pat base = GenPat(litBias); std::vector<std::string> cl = base.cl;
+      const size_t at = (cl.size() > 2 && R(4)) ? 2 + R((uint32)cl.size() - 2) : R((uint32)cl.size());
+      cl[at] = PickMalformed();
+      if (at >= 2 && cl[0] == "*" && cl[1] == "*" && R(2)) { cl.erase(cl.begin(), cl.begin() + 2); return MakePat(cl, true, false, true); }
+      return MakePat(cl, false, false, true);
    }
    // 2-3 patterns none of which matches the victim node although every level of it is matched by at least one of them
    bool GenConspiracy(std::vector<Pat> & out, bool litBias)
@@ -462,9 +479,16 @@ struct World {
       if (filterMode) { // the same canonical pattern twice with different filters: which filter applies is unspecified -> keep the first only
          std::set<std::string> seenCanon; std::vector<Pat> keep; for (size_t i = 0; i < pats.size(); i++) if (seenCanon.insert(pats[i].Canon()).second) keep.push_back(pats[i]); pats.swap(keep);
       }
+      if (np > 0 && R(8) == 0) { // a malformed pattern first / in the middle / last (or alone); occasionally two of them
+         const int nm = (R(6) == 0) ? 2 : 1; if (pats.size() > 1 && R(5) == 0) pats.resize(1); if (R(12) == 0) pats.clear();
+         for (int j = 0; j < nm; j++) { Pat bad = GenMalformedPat(litBias); bool dup = false; for (size_t i = 0; i < pats.size(); i++) if (pats[i].Canon() == bad.Canon()) dup = true; if (dup) continue;
+            const uint32 where = R(3); const size_t pos = where == 0 ? 0 : (where == 1 ? pats.size() : R((uint32)pats.size() + 1)); pats.insert(pats.begin() + pos, bad); }
+      }
       if (filterMode == 1) for (size_t i = 0; i < pats.size(); i++) if (pats.size() == 1 || R(3)) { pats[i].hasFilter = true; pats[i].filter = GenFilter(); }
       if (filterMode == 2) { if (pats.size() < 2) filterMode = 0; else { size_t nf = 1 + R((uint32)pats.size() - 1); for (size_t i = 0; i < nf; i++) shortFilters.push_back(GenFilter()); } }
    }
+   // 0 = no malformed pattern, 1 = malformed but none before a valid one, 2 = a malformed pattern precedes a valid one
+   static int MalformedShape(const std::vector<Pat> & pats) { int r = 0; bool seenBad = false; for (size_t i = 0; i < pats.size(); i++) { if (pats[i].malformed) { seenBad = true; if (!r) r = 1; } else if (seenBad) r = 2; } return r; }
    static void AddPatSetTo(Message & m, const std::vector<Pat> & pats, int filterMode, const std::vector<RF> & shortFilters)
    {
       for (size_t i = 0; i < pats.size(); i++) (void)m.AddString(PR_NAME_KEYS, pats[i].text.c_str());
@@ -473,7 +497,7 @@ struct World {
    }
    static std::string ShowPats(const std::vector<Pat> & pats, int filterMode, const std::vector<RF> & shortFilters)
    {
-      std::string s; for (size_t i = 0; i < pats.size(); i++) { s += " [" + pats[i].text + "]"; if (pats[i].hasFilter) s += "{" + ShowFilter(pats[i].filter) + "}"; }
+      std::string s; for (size_t i = 0; i < pats.size(); i++) { s += " [" + pats[i].text + "]"; if (pats[i].malformed) s += "(malformed)"; if (pats[i].hasFilter) s += "{" + ShowFilter(pats[i].filter) + "}"; }
       if (filterMode == 2) { s += " +filters(fewer than keys):"; for (size_t i = 0; i < shortFilters.size(); i++) s += "{" + ShowFilter(shortFilters[i]) + "}"; }
       return s;
    }
@@ -543,12 +567,13 @@ struct World {
          if (pats.empty()) vh::stat("msgs_with_only_an_empty_key"); else vh::stat(vh::fmt("msgs_with_%zu%s_patterns", pats.size() > 4 ? (size_t)5 : pats.size(), pats.size() > 4 ? "plus" : ""));
          std::map<size_t, int> depths; for (size_t i = 0; i < pats.size(); i++) depths[pats[i].cl.size()]++;
          if (pats.size() >= 2) { vh::stat(depths.size() == 1 ? "multi_msgs_one_depth" : (depths.size() == 2 ? "multi_msgs_two_depths" : "multi_msgs_three_plus_depths")); bool eq = false; for (std::map<size_t, int>::const_iterator it = depths.begin(); it != depths.end(); ++it) if (it->second > 1) eq = true; if (eq) vh::stat("multi_msgs_with_equal_depth_patterns"); if (eq && depths.size() > 1) vh::stat("multi_msgs_equal_and_different_depths"); }
-         bool anyFast = false, anySlow = false; for (size_t l = 0; l < 8; l++) { bool have = false, fast = true; for (size_t i = 0; i < pats.size(); i++) if (pats[i].cl.size() > l) { have = true; if (!IsLitOrList(pats[i].cl[l])) fast = false; } if (have) { if (fast) anyFast = true; else anySlow = true; } }
+         bool anyFast = false, anySlow = false; for (size_t l = 0; l < 8; l++) { bool have = false, fast = true; for (size_t i = 0; i < pats.size(); i++) if (!pats[i].malformed && pats[i].cl.size() > l) { have = true; if (!IsLitOrList(pats[i].cl[l])) fast = false; } if (have) { if (fast) anyFast = true; else anySlow = true; } }
          if (anyFast) vh::stat("msgs_with_a_direct_lookup_level"); if (anySlow) vh::stat("msgs_with_an_iterated_level");
          if (filterMode) vh::stat("msgs_with_filters");
+         { const int ms = MalformedShape(pats); if (ms) { vh::stat("msgs_with_malformed_pattern"); if (ms == 2) vh::stat("msgs_with_malformed_pattern_before_valid"); else if (pats.size() > 1) vh::stat("msgs_with_malformed_pattern_last"); else vh::stat("msgs_with_malformed_pattern_alone"); bool anyExp = false; for (size_t r = 0; r < ss.size(); r++) if (st.expect[r] == 1) anyExp = true; if (ms == 2 && anyExp) vh::stat("msgs_with_malformed_pattern_before_valid_and_receivers"); } }
          bool anyC = false; for (size_t r = 0; r < ss.size(); r++) if (st.consp[r] && st.expect[r] == 0 && (int)r != sender) { vh::stat("conspiracy_candidate_receivers"); anyC = true; } if (anyC) vh::stat("msgs_with_conspiracy_candidate");
       }
-      else if (S.hasKeys) { st.mode = 1; RouteExpect(sender, S.routeKeys, st.expect, st.consp); vh::stat("default_route_messages"); }
+      else if (S.hasKeys) { st.mode = 1; RouteExpect(sender, S.routeKeys, st.expect, st.consp); vh::stat("default_route_messages"); if (MalformedShape(S.routeKeys) == 2) { vh::stat("default_route_messages_through_malformed_before_valid"); for (size_t r = 0; r < ss.size(); r++) if (st.expect[r] == 1) { vh::stat("default_route_deliveries_expected_behind_malformed"); break; } } }
       else { st.mode = 2; st.expect.assign(ss.size(), 0); st.consp.assign(ss.size(), 0); for (size_t r = 0; r < ss.size(); r++) st.expect[r] = (S.g2n && (((int)r == sender) ? S.self : ss[r].n2g)) ? 1 : 0; vh::stat("broadcast_messages"); if (!S.g2n) vh::stat("broadcast_messages_with_g2n_off"); }
       st.desc = vh::fmt("id %d from #%d (%s%s)%s", st.id, sender, kModes[st.mode], S.self ? ", sender reflects to self" : "", forge >= 0 ? " forged-session-field" : "") + (st.mode == 1 ? ShowPats(S.routeKeys, 0, shortFilters) : ShowPats(pats, filterMode, shortFilters)) + (emptyKey ? " [](empty key)" : "");
       log.push_back(st.desc);
@@ -572,6 +597,7 @@ struct World {
       MessageRef m = GetMessageFromPool(PR_COMMAND_SETPARAMETERS); AddPatSetTo(*m(), pats, filterMode, shortFilters); s.c->Send(m);
       s.hasKeys = true; if (filterMode) s.hasFilters = true; s.routeKeys = pats;
       log.push_back(vh::fmt("#%d SET default route", si) + ShowPats(pats, filterMode, shortFilters)); vh::stat("param_default_route_set");
+      { const int ms = MalformedShape(pats); if (ms) vh::stat("default_routes_with_malformed_pattern"); if (ms == 2) vh::stat("default_routes_with_malformed_pattern_before_valid"); }
    }
    void RemoveRoute(int si)
    {
@@ -664,6 +690,7 @@ struct World {
          rooted = true; const size_t si = R((uint32)info.size()); startSegs.push_back(info[si].host); if (R(4)) startSegs.push_back(info[si].sid);
          int np = 1 + R(4); filterMode = R(3) == 0 ? 1 : 0;
          for (int i = 0; i < np; i++) { std::vector<std::string> cl; if (startSegs.size() == 1) cl.push_back(R(2) ? SessClauseForm(info, si) : std::string("*")); std::vector<std::string> nc = NodeClauses(1 + (R(3) == 0) + (R(7) == 0), litBias); cl.insert(cl.end(), nc.begin(), nc.end()); pats.push_back(MakePat(cl, false, true)); }
+         if (R(8) == 0) { std::vector<std::string> cl = pats[R((uint32)pats.size())].cl; cl[R((uint32)cl.size())] = PickMalformed(); pats.insert(pats.begin() + R((uint32)pats.size() + 1), MakePat(cl, false, true, true)); }
          if (filterMode) { std::set<std::string> seenCanon; std::vector<Pat> keep; for (size_t i = 0; i < pats.size(); i++) if (seenCanon.insert(pats[i].Canon()).second) keep.push_back(pats[i]); pats.swap(keep); for (size_t i = 0; i < pats.size(); i++) if (R(3)) { pats[i].hasFilter = true; pats[i].filter = GenFilter(); } }
       }
       else { GenPatSet(pats, filterMode, shortFilters, litBias, 1); if (filterMode == 2) filterMode = 0; }
@@ -683,11 +710,12 @@ struct World {
       vh::stat("traversal_comparisons"); vh::stat("traversal_nodes_visited", (long)vis.size()); vh::stat("traversal_nodes_tested", (long)sub.nodes.size());
       if (rooted) vh::stat(startSegs.size() == 1 ? "traversals_rooted_at_host_node" : "traversals_rooted_at_session_node");
       if (useFilters && nf) vh::stat("traversals_with_filters");
-      size_t fastL = 0, slowL = 0; for (size_t l = 0; l < 8; l++) { bool have = false, fast = true; for (size_t i = 0; i < pats.size(); i++) if (pats[i].cl.size() > l) { have = true; if (!IsLitOrList(pats[i].cl[l])) fast = false; } if (have) { if (fast) fastL++; else slowL++; } }
+      size_t fastL = 0, slowL = 0; for (size_t l = 0; l < 8; l++) { bool have = false, fast = true; for (size_t i = 0; i < pats.size(); i++) if (!pats[i].malformed && pats[i].cl.size() > l) { have = true; if (!IsLitOrList(pats[i].cl[l])) fast = false; } if (have) { if (fast) fastL++; else slowL++; } }
       vh::stat("traversal_levels_direct_lookup", (long)fastL); vh::stat("traversal_levels_iterated", (long)slowL);
       if (fastL && slowL) vh::stat("traversals_mixing_lookup_and_iteration"); else if (fastL) vh::stat("traversals_direct_lookup_at_every_level"); else vh::stat("traversals_iterated_at_every_level");
       if (fastL && !vis.empty()) vh::stat("traversals_with_lookup_level_and_visits");
       if (pats.size() > 1) vh::stat("traversals_with_several_patterns");
+      if (MalformedShape(pats)) vh::stat("traversals_with_malformed_pattern");
       if (vis.empty()) vh::stat("traversals_visiting_nothing");
       // verdicts
       const std::string what = std::string(rooted ? "rooted at " + sp : "from the root") + (useFilters ? ", filters on" : ", filters off") + ":" + ShowPats(pats, filterMode, shortFilters);
@@ -772,6 +800,7 @@ struct Rg {   // tiny fixed world: clients only, expectations written by hand
    }
 };
 static std::vector<std::string> K(const char * a = NULL, const char * b = NULL, const char * c = NULL) { std::vector<std::string> v; if (a) v.push_back(a); if (b) v.push_back(b); if (c) v.push_back(c); return v; }
+static std::vector<int> W4(int a, int b, int c, int d) { std::vector<int> v; v.push_back(a); v.push_back(b); v.push_back(c); v.push_back(d); return v; }
 static std::vector<int> W3(int a, int b, int c) { std::vector<int> v; v.push_back(a); v.push_back(b); v.push_back(c); return v; }
 
 static void Regress()
@@ -880,7 +909,25 @@ static void Regress()
       bool arrived = false; for (size_t j = 0; j < q.c[1]->got.size(); j++) if (q.c[1]->got[j]()->HasName(FIELD_ID)) arrived = true;
       vh::stat(arrived ? "observed_remove_of_never_set_default_flag_is_ignored" : "observed_remove_of_never_set_default_flag_works");
    }
-   for (uint64_t i = 1; i <= 7; i++) vh::distinct(i);
+   vh::begin_case(7);
+   { // a pattern that does not compile selects nothing and leaves the other patterns of the list alone, wherever it stands (seeded change C05-6)
+      Rg r(4, "regress|malformed_pattern_in_list"); r.Set(1, "foo"); r.Set(2, "bar"); r.Set(3, "baz");
+      r.Route("malformed in the middle", 0, K("/*/*/foo", "/*/*/(", "/*/*/bar"), W4(0, 1, 1, 0));
+      r.Route("malformed first", 0, K("/*/*/ba[", "/*/*/baz"), W4(0, 0, 0, 1));
+      r.Route("malformed at session level first", 0, K("/*/(", "/*/*/ba?", "/*/*"), W4(0, 1, 1, 1));
+      r.Route("malformed last", 0, K("/*/*/foo", "/*/*/baz", "f["), W4(0, 1, 0, 1));
+      r.Route("malformed alone", 0, K("/*/*/ba["), W4(0, 0, 0, 0));
+      r.Route("reversed class range first", 0, K("[z-a]", "bar"), W4(0, 0, 1, 0));
+      MessageRef sp = GetMessageFromPool(PR_COMMAND_SETPARAMETERS); (void)sp()->AddString(PR_NAME_KEYS, "/*/*/f["); (void)sp()->AddString(PR_NAME_KEYS, "/*/*/f*"); (void)sp()->AddString(PR_NAME_KEYS, "/*/*/baz"); r.c[0]->Send(sp); r.B.Settle();
+      r.Route("default route with a malformed pattern first", 0, K(), W4(0, 1, 0, 1));
+      // the same list through GETDATA and REMOVEDATA
+      MessageRef gd = GetMessageFromPool(PR_COMMAND_GETDATA); (void)gd()->AddString(PR_NAME_KEYS, "(("); (void)gd()->AddString(PR_NAME_KEYS, "ba?"); r.c[0]->mirror.clear(); r.c[0]->Send(gd); r.B.Settle();
+      if (r.c[0]->mirror.size() != 2 || !r.c[0]->mirror.count(r.c[2]->root + "/bar") || !r.c[0]->mirror.count(r.c[3]->root + "/baz")) vh::viol("regress|malformed_pattern_in_list", vh::fmt("GETDATA [((] [ba?] returned %zu nodes, expected bar and baz", r.c[0]->mirror.size()));
+      MessageRef rm = GetMessageFromPool(PR_COMMAND_REMOVEDATA); (void)rm()->AddString(PR_NAME_KEYS, "b["); (void)rm()->AddString(PR_NAME_KEYS, "bar"); r.c[2]->Send(rm); r.B.Settle();
+      r.Route("after REMOVEDATA [b[] [bar]", 0, K("ba?"), W4(0, 0, 0, 1));
+      vh::stat("regress_malformed_scenarios", 10);
+   }
+   for (uint64_t i = 1; i <= 8; i++) vh::distinct(i);
 }
 
 int main(int argc, char ** argv)
@@ -890,6 +937,7 @@ int main(int argc, char ** argv)
    vh::init(argc, argv);
    vh::Ctx & c = vh::ctx();
    const std::string mode = vh::opt("mode", "route");
+   InitMalformedPool();
    if (mode == "regress") { Regress(); return vh::finish(); }
    const long nMsgs = vh::optl("msgs", 40), nTrav = vh::optl("trav", 70);
    for (long k = c.from; k < c.from + c.cases; k++) {
